@@ -1,51 +1,51 @@
 (* Corollaries of the main engine theorem used by C02.v, and the refutation witness of the known plan dependence. *)
 Require Import KV.Sparql.Base KV.Sparql.Syntax KV.Sparql.MuProofs KV.Sparql.JoinProofs KV.Sparql.Algebra KV.Sparql.Engine
         KV.Sparql.PlanEquiv KV.Sparql.Sem KV.Sparql.ScanProofs KV.Sparql.BgpProofs KV.Sparql.HashProofs KV.Sparql.SemProofs
-        KV.Sparql.ExecLemmas KV.Sparql.GroupProofs KV.Sparql.EngineProofs.
+        KV.Sparql.ExecLemmas KV.Sparql.IdemProofs KV.Sparql.GroupProofs KV.Sparql.EngineProofs.
 Require Import Permutation.
 
 Lemma plan_independent :
-  forall st ev, named_nodup ev ->
-  forall l p1 p2, implementsb l p1 = true -> implementsb l p2 = true -> nodup_groups l = true -> ok_in [] l = true ->
+  forall st ev, named_nodup ev -> store_sets st ->
+  forall l p1 p2, implementsb l p1 = true -> implementsb l p2 = true -> ok_in [] l = true ->
   forall active, exec st ev active p1 [[]] ≡ₚ exec st ev active p2 [[]].
 Proof.
-  intros st ev ND l p1 p2 I1 I2 NG OK active.
+  intros st ev ND SS l p1 p2 I1 I2 OK active.
   assert (W : all_wf [[]]) by (constructor; [exact I | constructor]).
   assert (D : dom_in [] [[]]) by (intros a x w [Ha|[]] L; subst; discriminate).
-  eapply perm_trans; [eapply (exec_sem st ev ND l p1 I1 NG [] active [[]] OK W D)|].
-  apply Permutation_sym. eapply (exec_sem st ev ND l p2 I2 NG [] active [[]] OK W D).
+  eapply perm_trans; [eapply (exec_sem st ev ND SS l p1 I1 [] active [[]] OK W D)|].
+  apply Permutation_sym. eapply (exec_sem st ev ND SS l p2 I2 [] active [[]] OK W D).
 Qed.
 
 Lemma implements_sem :
-  forall st ev, named_nodup ev ->
-  forall l p, implementsb l p = true -> nodup_groups l = true -> ok_in [] l = true ->
+  forall st ev, named_nodup ev -> store_sets st ->
+  forall l p, implementsb l p = true -> ok_in [] l = true ->
   forall active, exec st ev active p [[]] ≡ₚ sem st ev active l.
 Proof.
-  intros st ev ND l p I1 NG OK active.
+  intros st ev ND SS l p I1 OK active.
   assert (W : all_wf [[]]) by (constructor; [exact I | constructor]).
   assert (D : dom_in [] [[]]) by (intros a x w [Ha|[]] L; subst; discriminate).
   rewrite <- (join_unit_l (sem st ev active l)) by apply sem_wf.
-  eapply (exec_sem st ev ND l p I1 NG [] active [[]] OK W D).
+  eapply (exec_sem st ev ND SS l p I1 [] active [[]] OK W D).
 Qed.
 
 (* The three join algorithms agree on every pair of sub-plans (bind join = nested loop = hash join). *)
 Lemma three_joins_agree :
-  forall st ev, named_nodup ev ->
+  forall st ev, named_nodup ev -> store_sets st ->
   forall l1 l2 p1 p2, scan_scope (LJoin l1 l2) = None ->
-    implementsb l1 p1 = true -> implementsb l2 p2 = true -> nodup_groups (LJoin l1 l2) = true ->
+    implementsb l1 p1 = true -> implementsb l2 p2 = true ->
   forall inb active inc, ok_in inb (LJoin l1 l2) = true -> all_wf inc -> dom_in inb inc ->
     exec st ev active (XBindJoin p1 p2) inc ≡ₚ exec st ev active (XNLJoin p1 p2) inc /\
     exec st ev active (XHashJoin p1 p2) inc ≡ₚ exec st ev active (XNLJoin p1 p2) inc.
 Proof.
-  intros st ev ND l1 l2 p1 p2 ES I1 I2 NG inb active inc OK W D.
+  intros st ev ND SS l1 l2 p1 p2 ES I1 I2 inb active inc OK W D.
   assert (IB : implementsb (LJoin l1 l2) (XBindJoin p1 p2) = true) by (cbn [implementsb]; rewrite ES, I1, I2; reflexivity).
   assert (IH : implementsb (LJoin l1 l2) (XHashJoin p1 p2) = true) by (cbn [implementsb]; rewrite ES, I1, I2; reflexivity).
   assert (IN : implementsb (LJoin l1 l2) (XNLJoin p1 p2) = true) by (cbn [implementsb]; rewrite ES, I1, I2; reflexivity).
   split.
-  - eapply perm_trans; [eapply (exec_sem st ev ND _ _ IB NG inb active inc OK W D)|].
-    apply Permutation_sym. eapply (exec_sem st ev ND _ _ IN NG inb active inc OK W D).
-  - eapply perm_trans; [eapply (exec_sem st ev ND _ _ IH NG inb active inc OK W D)|].
-    apply Permutation_sym. eapply (exec_sem st ev ND _ _ IN NG inb active inc OK W D).
+  - eapply perm_trans; [eapply (exec_sem st ev ND SS _ _ IB inb active inc OK W D)|].
+    apply Permutation_sym. eapply (exec_sem st ev ND SS _ _ IN inb active inc OK W D).
+  - eapply perm_trans; [eapply (exec_sem st ev ND SS _ _ IH inb active inc OK W D)|].
+    apply Permutation_sym. eapply (exec_sem st ev ND SS _ _ IN inb active inc OK W D).
 Qed.
 
 (* ---- the known plan dependence, on the model: the witness of C02-undef-filter-plan-dependence ----
